@@ -215,9 +215,42 @@ def run(ctx):
     rb = nodes_calling(g, lambda c: isinstance(c.func, ast.Name) and c.func.id == 'rollback')
     ok = bool(rb) and g.must_pass_after(g.entry, rb, exits=[g.raise_, g.exit])
     ctx.ob('C17-ABORT.rollback_and_reraise-rolls-back', rbk, rbk.node, ok, '' if ok else 'rollback_and_reraise can leave without rollback()')
+    # ---------------------------------------------------------------- RECONNECT
+    # a statement that fails with a connection-level error is answered by SessionCache.reconnect(e): drop the connection, open a new one, run the
+    # statement again.  That is only sound when no transaction was open -- the new connection knows nothing of the earlier writes.  provider.drop()
+    # resets cache.in_transaction, so the decision must be taken from the flag's value *before* the drop.  Finite-state run over reconnect():
+    # `was` = a transaction was open on entry, `intx` = the flag now; drop() clears the flag; connect() must be unreachable with was == True.
+    rc = repo.fn(CORE, 'SessionCache.reconnect'); g = cg.cfg(rc); rrecv = rc.recv
+    excp = rc.params[1]
+    def eff_r(n, env):
+        if n.kind != 'stmt': return None
+        for c in n.calls():
+            if isinstance(c.func, ast.Attribute) and c.func.attr == 'drop': return {'normal': [{'intx': False}], 'exc': [{'intx': False}]}
+        if isinstance(n.ast, ast.Assign):
+            for t_, v_ in assign_pairs(n.ast):
+                if dotted(t_) == rrecv + '.in_transaction' and isinstance(v_, ast.Constant): return {'normal': [{'intx': bool(v_.value)}]}
+        return None
+    def atom_r(t, env):
+        if t == rrecv + '.in_transaction': return env['intx']
+        if t == excp + ' is not None': return True
+        if t == excp + ' is None': return False
+        return None
+    mr = Machine(g, ['was', 'intx'], eff_r, atom_r, snap={rrecv + '.in_transaction': 'intx'})
+    INr = mr.run([{'was': True, 'intx': True}, {'was': False, 'intx': False}])
+    conn = nodes_calling(g, lambda c: is_call_to(c, rrecv, 'connect'))
+    ctx.need(conn, 'C17: SessionCache.reconnect no longer calls connect()')
+    bad = [e for cn in conn for e in mr.states_at(INr, cn) if e['was']]
+    live = [e for cn in conn for e in mr.states_at(INr, cn) if not e['was']]
+    ok = not bad and bool(live)
+    ctx.ob('C17-RECONNECT.no-new-connection-in-the-middle-of-a-transaction', rc, conn[0].ast, ok,
+           '' if ok else ('after a connection failure reconnect() can reach connect() although a transaction was in progress (state %s): the failed statement is re-run on a '
+                          'fresh connection, the writes made before the failure are lost and the later ones are committed' % bad[0]) if bad else 'reconnect() never reconnects',
+           expected='remember cache.in_transaction before provider.drop() (which resets it) and raise ConnectionClosedError')
 
 
 MUTANTS = [
+    dict(id='C17-rec1', file='pony/orm/core.py', fn='SessionCache.reconnect', old="            in_transaction = cache.in_transaction\n            cache.connection = None\n            provider.drop(connection, cache)  # resets cache.in_transaction\n            if in_transaction: throw(",
+         new="            cache.connection = None\n            provider.drop(connection, cache)  # resets cache.in_transaction\n            in_transaction = cache.in_transaction\n            if in_transaction: throw(", expect='C17-RECONNECT'),
     dict(id='C17-g1', file='pony/orm/core.py', fn='commit', old="        for cache in caches:\n            cache.flush()\n", new="        caches[0].flush()\n", expect='C17-ABORT.global-commit'),
     dict(id='C17-b1', file='pony/orm/dbproviders/sqlite.py', fn='SQLiteProvider.set_transaction_mode', old="                cursor.execute(sql)\n                cache.in_transaction = True\n", new="                cache.in_transaction = True\n                cursor.execute(sql)\n", expect='C17-BEGIN.sqlite-flag'),
     dict(id='C17-m1', file='pony/orm/core.py', fn='Entity._save_deleted_', old='database._exec_sql(sql, arguments, start_transaction=True)', new='database._exec_sql(sql, arguments)', expect='C17-DML.statement'),
